@@ -69,6 +69,20 @@ def twins(docs, seed=0, per_doc=2):
     return out
 
 
+def emphasis_sentences(rep=None):
+    """All documents of MCEmphGen (delimiter runs alternating with word segments), as strings."""
+    r = C.run_tlc("MCEmphGen", "EmphGen.cfg", allow_violation=False, timeout=900)
+    if rep is not None:
+        rep.tlc("EmphGen[3 and 4 delimiter runs x spacing]", r)
+    out = set()
+    for line in r.out.splitlines():
+        if line.startswith('"{'):
+            out.add("".join(json.loads(json.loads(line))["parts"]))
+    if len(out) < 30000:
+        raise C.MachineryError(f"EmphGen exported only {len(out)} sentences")
+    return sorted(out)
+
+
 def sample(items, n, seed, keep_short=0):
     """Deterministic subsample; the `keep_short` shortest items are always kept."""
     items = list(items)
